@@ -40,7 +40,7 @@ import (
 var (
 	rxPunctuation      = regexp.MustCompile(`\s+([.?!,;])\s*(\S*)`)
 	rxTempNewline      = regexp.MustCompile(`\s*\|\\/\|\s*`)
-	rxDisplay          = regexp.MustCompile(`(?i)display:\s*([\w-]+)\s*(?:;|$)`)
+	rxDisplay          = regexp.MustCompile(`(?i)(?:^|;)\s*display\s*:\s*([\w-]+)\s*(?:!\s*important\s*)?(?:;|$)`)
 	rxVisibilityHidden = regexp.MustCompile(`(?i)visibility:\s*(:?hidden|collapse)`)
 	rxSrcsetURL        = regexp.MustCompile(`(?i)(\S+)(\s+[\d.]+[xw])?(\s*(?:,|$))`)
 
@@ -505,9 +505,16 @@ func IsProbablyVisible(node *html.Node) bool {
 func GetDisplayStyle(node *html.Node) string {
 	// Check if display specified in inline style
 	style := dom.GetAttribute(node, "style")
-	parts := rxDisplay.FindStringSubmatch(style)
-	if len(parts) >= 2 {
-		return parts[1]
+	// The last declaration wins, `!important` and letter case don't change the value. The
+	// declarations are matched one by one, because a match consumes the `;` that ends it.
+	display := ""
+	for _, declaration := range strings.Split(style, ";") {
+		if parts := rxDisplay.FindStringSubmatch(declaration); len(parts) >= 2 {
+			display = strings.ToLower(parts[1])
+		}
+	}
+	if display != "" {
+		return display
 	}
 
 	// Use default display
